@@ -25,6 +25,7 @@ func init() {
 			{"C08/remainder", "bytes beyond the declared packet size are kept or excluded", c08Remainder},
 			{"C08/bounded-copy", "copies into a fixed-size scratch buffer are bounded or their count is checked", c08BoundedCopy},
 			{"C08/reassembly", "the framer returns an error only for transport errors or an inconsistent header, not for 'still incomplete'", c08Reassembly},
+			{"C08/header-tests", "readHeader's three length tests are strict (<): a complete 8-byte header, a size of exactly 8 and exactly size bytes are accepted", func(c *Ctx) { headerTests(c, "C08/header-tests") }},
 			{"C08/transport-contract", "both ReadPacket implementations return n == len(p) (or 0 with an error)", c08TransportContract},
 			{"C08/transport-source", "a packet read is one whole transport read: one ReadMessage / one Read of the buffered chunked body", func(c *Ctx) {
 				transportRules(c, "C08/transport-source", false)
@@ -301,4 +302,64 @@ func c08TransportContract(c *Ctx) {
 		}
 	}
 	c.Check(good, rule, "LegacyPKT.ReadPacket copy", lg.Pos(), "returns a copy of the buffer that was read into", "the packet returned is not a copy of the bytes just read")
+}
+
+// headerTests: readHeader decides "incomplete" three times: fewer bytes than a header, a declared
+// size smaller than a header, fewer bytes than the declared size. Each must be a strict comparison:
+// with <= a header-only packet (KEEPALIVE: 8 bytes, size 8) or a packet that arrived exactly whole is
+// treated as a fragment and glued to the next read.
+func headerTests(c *Ctx, rule string) {
+	fn := c.Fn("cmd/rdpgw/protocol", "readHeader")
+	dataP := fn.Params[0]
+	isLenData := func(v ssa.Value) bool { return isLenOf(strip(v), dataP) }
+	n := 0
+	for _, b := range fn.Blocks {
+		if len(b.Instrs) == 0 {
+			continue
+		}
+		ifi, ok := b.Instrs[len(b.Instrs)-1].(*ssa.If)
+		if !ok {
+			continue
+		}
+		core, _ := normCond(ifi.Cond)
+		bo, ok := core.(*ssa.BinOp)
+		if !ok {
+			continue
+		}
+		// normalise to  small OP big  with OP in {<, <=}
+		x, y, op := bo.X, bo.Y, bo.Op
+		switch op {
+		case token.GTR:
+			x, y, op = y, x, token.LSS
+		case token.GEQ:
+			x, y, op = y, x, token.LEQ
+		case token.LSS, token.LEQ:
+		default:
+			continue
+		}
+		kind := ""
+		if isLenData(x) {
+			if k, isC := constInt(y); isC {
+				kind = fmt.Sprintf("len(data) vs %d", k)
+				n++
+				c.Check(op == token.LSS && k == 8 || op == token.LEQ && k == 7, rule, "readHeader "+kind, ifi.Pos(), "fewer than 8 bytes is 'header incomplete'", "the header-length test is not len(data) < 8: a complete header-only packet (8 bytes) is taken for a fragment, glued to the next read, and the packet after it is lost")
+				continue
+			}
+			// len(data) vs size
+			kind = "len(data) vs size"
+			n++
+			c.Check(op == token.LSS, rule, "readHeader "+kind, ifi.Pos(), "fewer bytes than declared is 'incomplete'", "the completeness test is not len(data) < size: a packet that arrived exactly whole is taken for a fragment")
+			continue
+		}
+		if k, isC := constInt(y); isC && !isLenData(x) {
+			if _, isInt := x.Type().Underlying().(*types.Basic); isInt {
+				kind = fmt.Sprintf("size vs %d", k)
+				n++
+				c.Check(op == token.LSS && k == 8 || op == token.LEQ && k == 7, rule, "readHeader "+kind, ifi.Pos(), "a declared size below 8 is invalid", "the size test is not size < 8: a header-only packet (size 8) is refused")
+			}
+		}
+	}
+	if n < 3 {
+		c.Undecided(rule, "readHeader tests", fn.Pos(), "found %d of the three length tests", n)
+	}
 }
